@@ -16,7 +16,11 @@
                                         allocator ([fresh]) and the table's edge is inserted
                                         (`insert_in_slot_unchecked`); the children's edges are
                                         moved into the node, their counts do not change.
-      [step _ (ARetain ..)]  `Store::clone_edge`  (atomic rc + 1)
+      [step _ (ARetain ..)]  `Store::clone_edge`  (atomic rc + 1) of an edge the thread can
+                             borrow: an edge owned by some thread or a child edge of a node
+                             reachable from one ([can_borrow_b]; the recursion of the apply
+                             algorithms clones `Borrowed` children of its operands, the
+                             workers of the parallel recursion borrow from the joining thread)
       [step _ (ARelease ..)] `Store::drop_edge`   (atomic rc - 1)
       [step _ (AMove ..)]    an `Edge`/`Function` value is handed to another thread
                              (join of the parallel recursion, channel, ...): no memory access
@@ -181,6 +185,23 @@ Fixpoint take_toks (tid : nat) (ch : list edge) (own : list (nat * edge)) : opti
     end
   end.
 
+(** [e] is [root] itself or a child edge of a node reachable from [root]
+    (what `Borrowed<Edge>` values derived from an owned edge can be) *)
+Fixpoint borrow_b (t : ctable) (fuel : nat) (root e : edge) : bool :=
+  edge_eqb root e ||
+  match fuel with
+  | O => false
+  | S f =>
+    match eref root with
+    | RT _ => false
+    | RN id =>
+      match cfind t id with
+      | Some nd => existsb (fun x => borrow_b t f x e) (cch nd)
+      | None => false
+      end
+    end
+  end.
+
 Section Model.
 Variable k : kind.
 Variable terms : list (N * N).     (* static terminal table: id |-> value code *)
@@ -241,6 +262,11 @@ Fixpoint find_shape (t : ctable) (lvl : nat) (ch : list edge) : option positive 
     if Nat.eqb (cl nd) lvl && edges_eqb (cch nd) ch then Some i else find_shape r lvl ch
   end.
 
+(** some thread owns an edge from which [e] can be borrowed (fuel [nl]: levels strictly
+    increase along child edges) *)
+Definition can_borrow_b (s : cst) (e : edge) : bool :=
+  existsb (fun o => borrow_b (cn s) nl (snd o) e) (cown s).
+
 Definition is_bcdd : bool := match k with KBcdd => true | _ => false end.
 
 (** one atomic action; [None] = not enabled *)
@@ -269,7 +295,7 @@ Definition step (s : cst) (a : act) : option (cst * option positive) :=
     match eref e with
     | RT _ => if cref_ok_b (cn s) (eref e) then Some (s, None) else None
     | RN id =>
-      if owns_b (cown s) (tid, e)
+      if can_borrow_b s e
       then Some (mkCst (rc_inc id (cn s)) ((tid, e) :: cown s), None)
       else None
     end
